@@ -275,7 +275,7 @@ Definition do_read (s : sstate) (f : inner) (win : bytes) (cap : N) (track : boo
   | Ok (f', i, o) =>
       let s' := with_flow s TRecvBody f' in
       (if track then add_consumed s' i else s', [w "ok"; TN i; TN (len o); TH o])
-  | Err e => (s, obs_err e)
+  | Err e => (with_flow s TRecvBody (recv_body_after_err f win cap), obs_err e)   (* the decoder keeps the state it reached *)
   | Panic _ => (s, obs_panic)
   end.
 
